@@ -31,6 +31,7 @@ inductive Out
   | done
   | failedAcq (e : Err)     -- takeLocks raised e
   | failedRel (e : Err)     -- giveLocks raised e (the first such exception)
+  | killed                  -- SIGINT / SIGTERM in the command body: the handler gave the locks up, the process died
   deriving DecidableEq, Repr, Hashable
 
 inductive Ctl
@@ -113,6 +114,27 @@ def mstep (S : PSt) (i : Pid) : PSt :=
   | .fin _ => S
 
 def mrun (S : PSt) (sched : List Pid) : PSt := sched.foldl mstep S
+
+/-- SIGINT / SIGTERM delivered to process `i` in its command body: the handler calls `giveLocks(locks)` for all its
+locks (the command's own `giveLocks` will not run any more), then the process dies; elsewhere not modelled -/
+def mintr (S : PSt) (i : Pid) : PSt :=
+  match S.ctl i with
+  | .body n _ => if n = 0 then setCtl S i (.fin .killed) else setCtl S i (.rel 0 n false .killed)
+  | _ => S
+
+inductive MEv
+  | call (i : Pid)
+  | intr (i : Pid)
+  deriving DecidableEq, Repr
+
+def mstepE (S : PSt) : MEv → PSt
+  | .call i => mstep S i
+  | .intr i => mintr S i
+
+def mrunE (S : PSt) (evs : List MEv) : PSt := evs.foldl mstepE S
+
+@[simp] theorem mrunE_nil (S : PSt) : mrunE S [] = S := rfl
+@[simp] theorem mrunE_cons (S : PSt) (e : MEv) (r : List MEv) : mrunE S (e :: r) = mrunE (mstepE S e) r := rfl
 
 def minit (kind : Pid → Kind) (lp : Pid → Option Pid) (tries : Pid → Nat) (path : Pid → List Dir)
     (explicit : Pid → Bool) : PSt :=
